@@ -68,6 +68,9 @@ type ImportSpec struct {
 	Max  int64  `json:"max,omitempty"`  // tables, memories; -1 = no maximum
 	VT   byte   `json:"vt,omitempty"`   // globals
 	Mut  bool   `json:"mut,omitempty"`  // globals
+	// NoExport: the importing module does not re-export this import (everything else in its
+	// index spaces is exported).
+	NoExport bool `json:"noexport,omitempty"`
 }
 
 // Expr is a constant expression.
@@ -192,6 +195,20 @@ func (s *ModSpec) view() *view {
 		v.hasMem = true
 	}
 	return v
+}
+
+// exported reports whether entry idx of the index space of the given kind is exported.
+func (s *ModSpec) exported(kind byte, idx int) bool {
+	n := 0
+	for _, im := range s.Imports {
+		if im.Kind == kind {
+			if n == idx {
+				return !im.NoExport
+			}
+			n++
+		}
+	}
+	return true
 }
 
 // readsMutableGlobalInConstExpr reports whether some constant expression of the module reads
@@ -430,7 +447,9 @@ func (s *ModSpec) build(nonce string) []byte {
 		m.AddFunc(sigs[f.Sig].P, sigs[f.Sig].R, nil, b.Bytes())
 	}
 	for i := 0; i < nF; i++ {
-		m.ExportFunc(fmt.Sprintf("f%d", i), uint32(i))
+		if s.exported(kFunc, i) {
+			m.ExportFunc(fmt.Sprintf("f%d", i), uint32(i))
+		}
 	}
 
 	// tables: defined ones, then the private ftab [null, f0..f(nF-1), scratch]
@@ -439,19 +458,23 @@ func (s *ModSpec) build(nonce string) []byte {
 	}
 	m.Tables = append(m.Tables, wasmenc.TableType(wasmenc.FuncRef, uint32(nF+2), -1))
 	for i := range v.telem {
-		m.Exports = append(m.Exports, wasmenc.Export{Name: fmt.Sprintf("t%d", i), Kind: kTable, Idx: uint32(i)})
+		if s.exported(kTable, i) {
+			m.Exports = append(m.Exports, wasmenc.Export{Name: fmt.Sprintf("t%d", i), Kind: kTable, Idx: uint32(i)})
+		}
 	}
 	if s.Mem != nil {
 		m.Mems = append(m.Mems, wasmenc.Limits(s.Mem.Min, s.Mem.Max, false))
 	}
-	if v.hasMem {
+	if v.hasMem && s.exported(kMem, 0) {
 		m.Exports = append(m.Exports, wasmenc.Export{Name: "mem", Kind: kMem, Idx: 0})
 	}
 	for _, g := range s.Globals {
 		m.Globals = append(m.Globals, wasmenc.Global{Type: g.VT, Mut: g.Mut, Init: encExpr(g.Init, g.VT)})
 	}
 	for i := range v.gt {
-		m.Exports = append(m.Exports, wasmenc.Export{Name: fmt.Sprintf("g%d", i), Kind: kGlobal, Idx: uint32(i)})
+		if s.exported(kGlobal, i) {
+			m.Exports = append(m.Exports, wasmenc.Export{Name: fmt.Sprintf("g%d", i), Kind: kGlobal, Idx: uint32(i)})
+		}
 	}
 
 	// element segments: the user's, then ftab's
